@@ -13,7 +13,7 @@ ID = 'C12'
 LEVEL = 'exploration'
 INCLUDE = spaces.C02_SIX + ['n_geos_max', 'n_pretest_max']
 RULE = ('Engine A (metamorphic): every base case of DEV(3,d) u DEV(4,d) (d = 1 | 2; + hand-picked 2-deviation cases in '
-        'quick; + panels with duplicate (geo,date) rows and with a missing cell), both searches, is re-run under 20 presentations: 7 row permutations (reverse, rotation, interleave, 4 fixed pseudo-random shuffles), '
+        'quick; + panels with duplicate (geo,date) rows and with a missing cell), both searches, is re-run under 23 presentations: dates as integer day numbers starting at 1 / 95 / -5 (digit-count boundaries, zero), 7 row permutations (reverse, rotation, interleave, 4 fixed pseudo-random shuffles), '
         '3 date offsets (+1 d, -400 d, +3653 d), IDs int<->str / object column of ints / categorical, 2 renamings that reverse the lexicographic order '
         '(eligibility renamed alike), scale c in {2^-20, 2^-3, 2, 2^10, 2^30} with the budget range scaled alike. Oracle: same designs '
         'after mapping IDs back (groups, verdicts, rounded correlation; impact and last score entry equal, or scaled '
@@ -26,7 +26,7 @@ ASSUMPTIONS = ['scale factors are powers of two (exact), statsmodels/scipy arith
 RENAMES = [lambda g, G: 'g%02d' % (G - 1 - g), lambda g, G: chr(ord('z') - g) * (1 + g % 2)]
 
 
-def search(case, rows=None, idmap=None, id_type='int', scale=1.0):
+def search(case, rows=None, idmap=None, id_type='int', scale=1.0, int_dates=None):
     """Run one search on a transformed presentation; designs reported with IDs mapped back to the base IDs."""
     p = case['panel']
     G = p['G']
@@ -41,8 +41,13 @@ def search(case, rows=None, idmap=None, id_type='int', scale=1.0):
         geo_col = pd.Series(geo_col, dtype=object)
     elif id_type == 'category':     # the IDs as a categorical column of strings
         geo_col = pd.Series([str(g) for g in geo_col]).astype('category')
-    df = pd.DataFrame({'date': pd.to_datetime([r[0] for r in base_rows]), 'geo': geo_col,
-                       'sales': [r[2] * scale for r in base_rows]})
+    if int_dates is None:
+        date_col = pd.to_datetime([r[0] for r in base_rows])
+    else:       # the dates as integer day numbers: day index + offset (1.., 101.., -49..: digit-count boundaries and zero)
+        import datetime
+        d0 = min(datetime.date.fromisoformat(r[0]) for r in base_rows)
+        date_col = [(datetime.date.fromisoformat(r[0]) - d0).days + int_dates for r in base_rows]
+    df = pd.DataFrame({'date': date_col, 'geo': geo_col, 'sales': [r[2] * scale for r in base_rows]})
     ge = None
     if not case.get('nomatrix'):
         ids, rr = [], []
@@ -173,6 +178,9 @@ def run_case(case):
         ('dates+1d', dict(rows=shift(rows, 1))),
         ('dates-400d', dict(rows=shift(rows, -400))),
         ('dates+10y', dict(rows=shift(rows, 3653))),
+        ('dates-as-day-numbers-from-1', dict(int_dates=1)),
+        ('dates-as-day-numbers-from-95', dict(int_dates=95)),
+        ('dates-as-day-numbers-from--5', dict(int_dates=-5)),
         ('ids-as-strings', dict(id_type='str')),
         ('ids-as-object-ints', dict(id_type='objint')),
         ('ids-as-categorical', dict(id_type='category')),
